@@ -54,6 +54,7 @@ type Node struct {
 	RO     bool    `json:"ro,omitempty"`     // leaf does not expose StoreChunk
 	WDedup bool    `json:"wdedup,omitempty"` // leaf wrapped in (Write)DedupQueue, the shape built on Windows
 	Anchor bool    `json:"anchor,omitempty"` // concurrent phase: member that stays healthy throughout
+	Active int     `json:"active,omitempty"` // concurrent phase, failover: the group starts with this member active (reached by a legal warm-up history)
 }
 
 func (n *Node) shape() string {
@@ -334,6 +335,9 @@ type builder struct {
 	rec  *recorder
 	next int
 	all  []*dx.MemStore // every leaf ever created (use-after-close accounting)
+	// prepos: honour Node.Active (concurrent phase only; the sequential model reaches such states by itself)
+	prepos bool
+	warm   int // injected faults delivered during warm-ups (not part of the phase under test)
 }
 
 func (b *builder) wrap(r *rnode, s desync.Store) {
@@ -389,6 +393,22 @@ func (b *builder) build(n *Node, parent *rnode) *rnode {
 			b.wrap(r, desync.NewStoreRouter(ss...))
 		} else {
 			b.wrap(r, desync.NewFailoverGroup(ss...))
+			if k := n.Active; b.prepos && k > 0 && k < len(r.kids) {
+				// warm-up through the public API only: with members 0..k-1 failing and member k
+				// answering, one request moves the group from member 0 to member k ("all subsequent
+				// requests will be routed to server2"). Then the members get their specified state.
+				for j := 0; j < k; j++ {
+					setDown(r.kids[j].leaf, true)
+				}
+				setDown(r.kids[k].leaf, false)
+				r.st.HasChunk(b.u.ids[0])
+				for _, m := range r.kids {
+					b.warm += m.leaf.Delivered()
+				}
+				for j := 0; j <= k; j++ {
+					setDown(r.kids[j].leaf, r.kids[j].spec.Down)
+				}
+			}
 		}
 	case "cache":
 		up := b.build(n.Kids[0], r)
